@@ -9,7 +9,7 @@ META = {
     'files': ['enspara/tpt/core.py', 'enspara/msm/transition_matrices.py'],
     'functions': ['enspara.tpt.core._I_m_Q', 'enspara.tpt.core.committors', 'enspara.tpt.core.mfpts'],
     'bounds': {'quick': 'dense T, n<=4 strictly positive (hence irreducible), every disjoint non-empty source/sink pair of '
-                        'sets of size <=2; n=3 with every irreducible zero pattern; sink-set MFPT n<=4; all-pairs MFPT table n=2; '
+                        'sets of size <=2; n=3 with every irreducible zero pattern; sink-set MFPT n<=4; all-pairs MFPT table n=2; populations supplied, or derived by mfpts itself (Perron contract; all-pairs n=2, one sink n=3); '
                         'column-major and non-contiguous inputs; each of the 7 scipy.sparse containers at n=3 (one and two sinks), '
                         'n=4 with an intermediate state adjacent to both sinks',
                'thorough': 'n<=5 committors / sink-set MFPT; all-pairs table attempted at n=3 (reported inconclusive if the '
